@@ -751,8 +751,10 @@ def c02(sess):
                       if RUNTIME_ERROR.match(e.get("message") or "")]
                 if rt and not sess.fam.get("w_rerun"):
                     out.append({"what": "workflow succeeded although a runtime error was logged: %r" % rt[:2], "step": i})
-            if status in ("paused", "canceled") and infl and not sess.fam.get("intermediate"):
-                out.append({"what": "workflow %s while %d action(s) are in flight" % (status, len(infl)), "step": i})
+            # an action that reported paused / pending is dormant, not in flight (C03 names it as a reason for paused)
+            act_infl = sess.active_log[i] if hasattr(sess, "active_log") else infl
+            if status in ("paused", "canceled") and act_infl:
+                out.append({"what": "workflow %s while %d action(s) are in flight" % (status, len(act_infl)), "step": i})
             if status in ("pausing", "canceling") and not infl:
                 out.append({"what": "workflow %s although no action is in flight" % status, "step": i})
         # failure is absorbing
